@@ -29,6 +29,9 @@ import (
 
 type client struct {
 	uploadLogs func(context.Context, []*logpb.ResourceLogs) error
+	// stop interrupts the uploads that are still in flight. It is nil for
+	// the noop client.
+	stop context.CancelFunc
 }
 
 func (c *client) UploadLogs(ctx context.Context, rl []*logpb.ResourceLogs) error {
@@ -85,13 +88,15 @@ func newHTTPClient(cfg config) (*client, error) {
 	}
 	req.Header.Set("Content-Type", "application/x-protobuf")
 
+	stopCtx, stop := context.WithCancel(context.Background())
 	c := &httpClient{
 		compression: cfg.compression.Value,
 		req:         req,
 		requestFunc: cfg.retryCfg.Value.RequestFunc(evaluate),
 		client:      hc,
+		stopCtx:     stopCtx,
 	}
-	return &client{uploadLogs: c.uploadLogs}, nil
+	return &client{uploadLogs: c.uploadLogs, stop: stop}, nil
 }
 
 type httpClient struct {
@@ -100,6 +105,8 @@ type httpClient struct {
 	compression Compression
 	requestFunc retry.RequestFunc
 	client      *http.Client
+	// stopCtx is canceled when the exporter is shut down.
+	stopCtx context.Context
 }
 
 // Keep it in sync with golang's DefaultTransport from net/http! We
@@ -128,6 +135,14 @@ func (c *httpClient) uploadLogs(ctx context.Context, data []*logpb.ResourceLogs)
 	if err != nil {
 		return err
 	}
+
+	// Unify the export context with the client's stop context so that a
+	// shutdown of the exporter interrupts an upload (and its retries) that
+	// is still in flight.
+	ctx, cancel := context.WithCancel(ctx)
+	defer cancel()
+	defer context.AfterFunc(c.stopCtx, cancel)()
+
 	request, err := c.newRequest(ctx, body)
 	if err != nil {
 		return err
